@@ -9,13 +9,16 @@ From Onet Require Export Base.Corr Net.Tls.
    certificate, whenever the deviating peer got to see it, carried a valid proof
    (signature by the honest key over the peer's nonce and the honest CN, in the
    format the code under test uses); compared (must be true), not part of [check] *)
-Inductive obs := Obs (hs : bool) (disp : nat) (stamp : list key) (crash : bool) (hp : bool).
+Inductive obs := Obs (hs : bool) (disp : nat) (stamp : list key) (crash : bool) (hp : bool)
+                      (resumed : bool).  (* tls.ConnectionState.DidResume of the observed connection *)
 
 (* one run: level, role, suite, ground truth (private server keys the deviating
-   peer holds), what it presented, its identity message, number of application
-   messages it sent, observation *)
+   peer holds), the TLS session ticket it offers (if any: the certificate of the
+   earlier, honest handshake and whether the listener is still the same
+   incarnation), what it presents in a full handshake, its identity message,
+   number of application messages it sent, observation *)
 Inductive case :=
-  Case (lv : level) (r : role) (s : suite) (holds : list key) (h : hello) (id : ident)
+  Case (lv : level) (r : role) (s : suite) (holds : list key) (t : ticket) (h : hello) (id : ident)
        (msgs : nat) (o : obs).
 
 (* The variant of the model the implementation is compared with.  The
@@ -40,10 +43,10 @@ Fixpoint keys_eqb (a b : list key) : bool :=
 
 Definition agree (c : case) : bool :=
   match c with
-  | Case lv r s _ h id msgs (Obs hs disp stamp crash hp) =>
-      let m := link code_fx lv r s h id msgs in
+  | Case lv r s _ t h id msgs (Obs hs disp stamp crash hp resumed) =>
+      let '(m, rs) := link_r code_fx lv r s t h id msgs in
       Bool.eqb (out_crash m) crash && Bool.eqb (out_hs m) hs && (out_disp m =? disp) &&
-      keys_eqb (out_stamp m) stamp && hp
+      keys_eqb (out_stamp m) stamp && hp && Bool.eqb rs resumed
   end.
 
 Definition mismatches (l : list case) : list nat := mism_idx agree l.
@@ -52,8 +55,9 @@ Definition mismatches (l : list case) : list nat := mism_idx agree l.
    [Tls.link_property] in Net/TlsProofs.v (prop_check_sound) *)
 Definition check (c : case) : list nat :=
   match c with
-  | Case lv r s holds h id _ (Obs hs disp stamp crash _) =>
-      prop_check lv r s holds h id hs disp stamp crash
+  | Case lv r s holds t h id _ (Obs hs disp stamp crash _ resumed) =>
+      (* on a resumption the peer presented nothing but the ticket *)
+      prop_check lv r s holds (effective resumed t h) id hs disp stamp crash
   end.
 
 Definition violations (l : list case) : list (nat * nat) := viols check l.
